@@ -120,7 +120,7 @@ def run_case(c, rng):
     else:
         configs = [{'mass_units': MU[m], 'reaction_order': o} for m in MASS for o in (0, 1, 2)]
     nval = 2 if c.tier == 'quick' else 25
-    containers = ['float', 'int', 'list', 'ndarray', 'dict'] + (['dataframe'] if is_hyd else [])
+    containers = ['float', 'int', 'list', 'ndarray', 'dict', 'series'] + (['dataframe'] if is_hyd else [])
     for cfg in configs:
         rf = ref_factor(u, p, darcy=cfg.get('darcy_weisbach', False),
                         mass=cfg['mass_units'].name if 'mass_units' in cfg else 'mg',
@@ -148,6 +148,8 @@ def run_case(c, rng):
                     ks = rng.choice([['k%d' % i for i in range(len(vals))], ['J%d' % (9 + i) for i in range(len(vals))], ['n%d' % (len(vals) - i) for i in range(len(vals))],
                                      [100 - 7 * i for i in range(len(vals))]])
                     x = {k_: v for k_, v in zip(ks, vals)}
+                elif cont == 'series':
+                    x = pd.Series(vals, index=['J%d' % (12 - i) for i in range(len(vals))])      # a results row: element names, unordered
                 else:
                     x = pd.DataFrame({'a': vals, 'b': [2 * v for v in vals]}, index=[10 * i for i in range(len(vals))])
                 wit = dict(unit=u, param=p, config=cfgs, container=cont)
@@ -236,4 +238,6 @@ def _same_container(x, y, cont):
         return isinstance(y, dict) and list(y.keys()) == list(x.keys())
     if cont == 'dataframe':
         return isinstance(y, pd.DataFrame) and list(y.index) == list(x.index) and list(y.columns) == list(x.columns)
+    if cont == 'series':
+        return isinstance(y, pd.Series) and list(y.index) == list(x.index)
     return False
